@@ -107,11 +107,20 @@ func (session *ServerCommandSession) FeedSdp(b []byte) {
 //
 // 使用RTSP TCP命令连接，向对端发送RTP数据
 func (session *ServerCommandSession) WriteInterleavedPacket(packet []byte, channel int) error {
+	b := packInterleaved(channel, packet)
 	if session.isWebSocket {
-		respLen := len(packInterleaved(channel, packet))
-		session.writeWsFrameHeader(respLen)
+		// The frame header and its payload must reach the asynchronous write queue as ONE item.
+		// Queued separately, a queue that fills up between the two (slow or stalled consumer)
+		// drops one of them, and everything the consumer reads afterwards is mis-framed.
+		wsHeader := base.WsHeader{
+			Fin:           true,
+			Opcode:        base.Wso_Binary,
+			PayloadLength: uint64(len(b)),
+		}
+		_, err := session.conn.Writev(net.Buffers{base.MakeWsFrameHeader(wsHeader), b})
+		return err
 	}
-	_, err := session.conn.Write(packInterleaved(channel, packet))
+	_, err := session.conn.Write(b)
 	return err
 }
 
